@@ -41,7 +41,7 @@ def tables(ops, results):
             ctab.append('(%s, %s)' % (ct.cstr(op['key']), ct.clist([ct.cstr(x) for x in res])))
     return ct.clist(rt), ct.clist(ctab)
 
-def run(pairs, wd, tag='corr', loader='cli', fuel=FUEL, public=False):
+def run(pairs, wd, tag='corr', loader='cli', fuel=FUEL, public=False, expr=None):
     """pairs: list of dict(rules=..., data=...). Returns list of dict per pair:
        kind: 'parse_rejected'|'empty'|'doc_rejected'|'compared'|'untranslatable'
        verdict (for compared), impl (raw impl result summary)"""
@@ -102,8 +102,10 @@ def run(pairs, wd, tag='corr', loader='cli', fuel=FUEL, public=False):
         except (ct.TranslateError, KeyError, AssertionError, TypeError) as e:
             out[i] = {'kind': 'untranslatable', 'raw': str(e)}
             continue
-        expr = 'check_case %d rt%d ct%d p%d d%d i%d' % (fuel, i, i, i, i, i)
-        cases.append((i, defs, expr))
+        e = 'check_case %d rt%d ct%d p%d d%d i%d' % (fuel, i, i, i, i, i)
+        if expr:
+            e = expr.format(i=i, fuel=fuel, check=e)
+        cases.append((i, defs, e))
         summary = ('panic: %s' % result.get('panic')) if isinstance(result, dict) and 'panic' in result else \
                   ('abort' if isinstance(result, dict) else
                    (result[0] + ' ' + (result[1] if isinstance(result[1], str) else '')))
